@@ -232,7 +232,7 @@ def _xv(gname, scheds, wd, cpath, gstats, t0, rand=None, trace=("Trace_Yata", "T
     return res
 
 
-def run_random(ix, tier, workdir, engine="yata", ext=(), gc_off=False, trace=("Trace_Yata", "Trace_Yata.cfg"), behaviours=None, ops=None):
+def run_random(ix, tier, workdir, engine="yata", ext=(), gc_off=False, trace=("Trace_Yata", "Trace_Yata.cfg"), behaviours=None, ops=None, wide=0):
     seed = vlib.seed()
     gname = "rand%03d" % ix
     cpath = _cache_path(vlib.tree_hash(), engine, gname, tier, seed)
@@ -247,6 +247,8 @@ def run_random(ix, tier, workdir, engine="yata", ext=(), gc_off=False, trace=("T
     t0 = time.time()
     rand = ["--seed", str(_h(seed, ix, engine) % (1 << 31)), "--behaviours", str(behaviours or (150 if tier == "quick" else 400)),
             "--ops", str(ops or (12 if ix % 2 == 0 else 40)), "--ext", ",".join(ext), "--gc-off", "1" if gc_off else "0"]
+    if wide:
+        rand += ["--wide", str(wide)]  # every wide-th behaviour: characters outside the BMP in the texts
     return _xv(gname, None, wd, cpath, None, t0, rand=rand, trace=trace, engine=engine)
 
 
@@ -298,6 +300,10 @@ def run_all(tier, workdir):
     for g in plan["gen"]:
         hists, st = gen_hists(g, tier, workdir)
         sc = make_schedules(hists, g, seed)
+        for idx, x in enumerate(sc):
+            if idx % 3 == 2:
+                # every third behaviour (both offset kinds): texts mix in characters outside the BMP (cfg `wide` of the executor)
+                x["cfg"]["wide"] = True
         st = dict(st)
         st["group"], st["used"] = g, len(sc)
         gstats.append(st)
@@ -310,7 +316,8 @@ def run_all(tier, workdir):
         rs, rt = os.path.join(wd, "rs%d.ndjson" % i), os.path.join(wd, "rt%d.ndjson" % i)
         rsch, ncr = vlib.run_x_random(rs, rt, ["--seed", str(_h(seed, i, "yata") % (1 << 31)),
                     "--ops", str((12, 40, 30)[i % 3]), "--ext", "", "--gc-off", "0",
-                    "--rich", "1" if i % 3 == 2 else "0"],  # every third run: XML trees, formatting marks, embeds, sub-document references
+                    "--rich", "1" if i % 3 == 2 else "0",  # every third run: XML trees, formatting marks, embeds, sub-document references
+                    "--wide", "3"],  # every third behaviour of every run: characters outside the BMP (surrogate pairs) in the texts
                     150 if tier == "quick" else 400)
         xs["crashes"] = xs.get("crashes", 0) + ncr
         nrand += len(rsch)
